@@ -51,6 +51,11 @@ type modelTSM struct {
 	failErr   error // the error they fail with (nil = errTransient)
 	struck    int
 	strikeErr error // the error the operation that has just struck returns
+	// afterReadDir runs once, right after the next successful listing of the directory (another process acting between
+	// the library's listing and its next step)
+	afterReadDir func()
+	// strayDigest lists attempted digest writes to entries that are not bound (the TSM refuses them)
+	strayDigest []string
 }
 
 var errTransient = errors.New("modelTSM: EIO (transient)")
@@ -72,6 +77,24 @@ func (m *modelTSM) strikes(kind string) bool {
 	}
 	return false
 }
+
+// tsmValueClient is a client used BY VALUE whose type holds a map and a func (a legal configfsi.Client; it cannot be a
+// map key and cannot be compared).
+type tsmValueClient struct {
+	m     *modelTSM
+	notes map[string]string
+	hook  func()
+}
+
+func (h tsmValueClient) MkdirTemp(dir, pattern string) (string, error) {
+	return h.m.MkdirTemp(dir, pattern)
+}
+func (h tsmValueClient) ReadFile(name string) ([]byte, error)          { return h.m.ReadFile(name) }
+func (h tsmValueClient) ReadDir(dirname string) ([]os.DirEntry, error) { return h.m.ReadDir(dirname) }
+func (h tsmValueClient) WriteFile(name string, contents []byte) error {
+	return h.m.WriteFile(name, contents)
+}
+func (h tsmValueClient) RemoveAll(p string) error { return h.m.RemoveAll(p) }
 
 // tsmHandle is a client value of its own in front of a shared model TSM (two handles = two users of one TSM).
 type tsmHandle struct{ m *modelTSM }
@@ -187,6 +210,10 @@ func (m *modelTSM) ReadDir(dirname string) ([]os.DirEntry, error) {
 	for _, n := range names {
 		out = append(out, dirEnt{n, !m.entries[n].isFile})
 	}
+	if f := m.afterReadDir; f != nil {
+		m.afterReadDir = nil
+		f()
+	}
 	return out, nil
 }
 
@@ -203,25 +230,26 @@ func (m *modelTSM) WriteFile(name string, contents []byte) error {
 	switch attr {
 	case "index":
 		if ent.bound {
-			return errors.New("modelTSM: EBUSY (entry already bound)")
+			return &fs.PathError{Op: "write", Path: name, Err: syscall.EBUSY} // entry already bound
 		}
 		idx, err := strconv.Atoi(strings.TrimSpace(string(contents)))
 		if err != nil || idx < 0 {
-			return errors.New("modelTSM: EINVAL index")
+			return &fs.PathError{Op: "write", Path: name, Err: syscall.EINVAL}
 		}
 		for _, o := range m.entries {
 			if o.bound && o.index == idx {
-				return errors.New("modelTSM: EBUSY (index bound elsewhere)")
+				return &fs.PathError{Op: "write", Path: name, Err: syscall.EBUSY} // index bound elsewhere
 			}
 		}
 		ent.bound, ent.index = true, idx
 		return nil
 	case "digest":
 		if !ent.bound {
-			return errors.New("modelTSM: digest write to unbound entry")
+			m.strayDigest = append(m.strayDigest, e)
+			return &fs.PathError{Op: "write", Path: name, Err: syscall.ENXIO} // digest write to an unbound entry
 		}
 		if len(contents) != 48 {
-			return errors.New("modelTSM: EINVAL digest size")
+			return &fs.PathError{Op: "write", Path: name, Err: syscall.EINVAL}
 		}
 		h := sha512.New384()
 		h.Write(ent.register[:])
@@ -324,9 +352,9 @@ func TestC17(t *testing.T) {
 		}
 		// requests arrive through one of three client values in front of the same TSM: the model itself and two handles
 		// (two users of one machine's TSM): what one of them created, the others must find
-		handles := []configfsi.Client{m, &tsmHandle{m}, &tsmHandle{m}}
+		handles := []configfsi.Client{m, &tsmHandle{m}, &tsmHandle{m}, tsmValueClient{m: m, notes: map[string]string{"k": "v"}, hook: func() {}}}
 		pickClient := func(t *rapid.T) configfsi.Client {
-			return handles[rapid.SampledFrom([]int{0, 0, 1, 2}).Draw(t, "client")]
+			return handles[rapid.SampledFrom([]int{0, 0, 1, 2, 3}).Draw(t, "client")]
 		}
 		accepted, rejected, hiccups := map[int]int{}, 0, 0
 		var hist []string
@@ -334,9 +362,18 @@ func TestC17(t *testing.T) {
 			from := len(m.ops)
 			before, _ := m.boundEntry(idx)
 			gen.Eval()
-			v := gen.Call(call)
+			v, hung := gen.CallWatch(20*time.Second, call)
 			hist = append(hist, fmt.Sprintf("%s -> %s", desc, v.Short()))
 			rp := map[string]any{"kind": "tsm-history", "history": hist}
+			if hung {
+				gen.Fail(t, gen.Violation{Key: "no-answer", Oracle: "extend returns nil or an error", Detail: desc + ": no answer within 20 s; history: " + strings.Join(hist, " ; "), Replay: rp})
+				t.Fatalf("a request hangs: the history cannot go on")
+			}
+			if len(m.strayDigest) > 0 {
+				gen.Fail(t, gen.Violation{Key: "wrong-register:digest-sent-to-an-unbound-entry", Oracle: "the extend lands on the RTMR entry bound to the requested index", Detail: fmt.Sprintf("%s: digest written to %v, which is bound to no index", desc, m.strayDigest), Replay: rp})
+				m.strayDigest = nil
+				return
+			}
 			if v.Panicked() {
 				gen.Fail(t, gen.Violation{Key: "panic@" + gen.PanicSite(v.Stack), Oracle: "extend returns nil or an error", Detail: desc + ": " + v.Panic, Replay: rp})
 				return
@@ -460,6 +497,64 @@ func TestC17(t *testing.T) {
 				switch {
 				case !struck && !v.Accepted():
 					gen.Fail(t, gen.Violation{Key: "rejects-valid-request", Oracle: "a valid request succeeds", Detail: desc + ": " + v.String(), Replay: rp})
+				case v.Accepted() && (len(dw) != 1 || !bytes.Equal(dw[0].data, d)):
+					gen.Fail(t, gen.Violation{Key: "digest-write-count", Oracle: "a valid request results in exactly one extend", Detail: fmt.Sprintf("%s: %d digest writes", desc, len(dw)), Replay: rp})
+				case !v.Accepted() && len(dw) != 0:
+					gen.Fail(t, gen.Violation{Key: "failed-request-extends", Oracle: "each register equals the SHA-384 extend chain of the accepted digests for its index", Detail: fmt.Sprintf("%s: returned an error after %d digest writes", desc, len(dw)), Replay: rp})
+				case v.Accepted():
+					model[idx] = extendChain(model[idx], d)
+					accepted[idx]++
+				default:
+					hiccups++
+				}
+			},
+			// a valid request that loses a race: right after the library has listed the directory, another process creates
+			// and binds the entry for the same index. The library either reports the failure (and has written no digest
+			// anywhere) or extends the entry that IS bound to the index - exactly once.
+			"lost-bind-race": func(t *rapid.T) {
+				idx := rapid.IntRange(0, 3).Draw(t, "idx")
+				if _, e := m.boundEntry(idx); e != nil {
+					t.Skip("index already has an entry")
+				}
+				d := s.Bytes(48)
+				raced := false
+				m.afterReadDir = func() {
+					raced = true
+					e := &tsmEntry{bound: true, index: idx}
+					if reg, ok := model[idx]; ok {
+						e.register = reg
+					}
+					m.counter++
+					m.entries[fmt.Sprintf("rtmr%d-racer%d", idx, m.counter)] = e
+					model[idx] = e.register
+				}
+				from := len(m.ops)
+				cl := pickClient(t)
+				gen.Eval()
+				v, hung := gen.CallWatch(20*time.Second, func() error { return rtmr.ExtendDigestClient(cl, idx, d) })
+				m.afterReadDir = nil
+				desc := fmt.Sprintf("ExtendDigestClient(%d, 48 bytes) while another process binds index %d right after the listing (raced=%v)", idx, idx, raced)
+				hist = append(hist, fmt.Sprintf("%s -> %s", desc, v.Short()))
+				rp := map[string]any{"kind": "tsm-history", "history": hist}
+				if hung || v.Panicked() {
+					gen.Fail(t, gen.Violation{Key: "no-answer-or-crash", Oracle: "extend returns nil or an error", Detail: desc + ": " + v.Panic, Replay: rp})
+					if hung {
+						t.Fatalf("a request hangs")
+					}
+					return
+				}
+				if len(m.strayDigest) > 0 {
+					gen.Fail(t, gen.Violation{Key: "wrong-register:digest-sent-to-an-unbound-entry", Oracle: "the extend lands on the RTMR entry bound to the requested index", Detail: fmt.Sprintf("%s: digest written to %v, which is bound to no index", desc, m.strayDigest), Replay: rp})
+					m.strayDigest = nil
+					return
+				}
+				var dw []tsmOp
+				for _, o := range m.mutations(from) {
+					if o.op == "writefile" && strings.HasSuffix(o.path, "/digest") {
+						dw = append(dw, o)
+					}
+				}
+				switch {
 				case v.Accepted() && (len(dw) != 1 || !bytes.Equal(dw[0].data, d)):
 					gen.Fail(t, gen.Violation{Key: "digest-write-count", Oracle: "a valid request results in exactly one extend", Detail: fmt.Sprintf("%s: %d digest writes", desc, len(dw)), Replay: rp})
 				case !v.Accepted() && len(dw) != 0:
